@@ -13,6 +13,27 @@ from props import c19_geo as G
 from props import c19_oracle as O
 
 
+JOBS = max(1, min(8, vf.NPROC))
+
+
+def drive(exe, lines):
+    """run the extracted model on the case lines with up to 8 processes; the assignment of cases to
+    processes depends only on the lines (longest first, least-loaded bin), results come back in order."""
+    n = len(lines)
+    if n <= 4 or JOBS == 1: return vf.run_driver(exe, lines, shards=1)
+    from concurrent.futures import ThreadPoolExecutor
+    bins = [[] for _ in range(JOBS)]; load = [0] * JOBS
+    for i in sorted(range(n), key=lambda i: (-len(lines[i]), i)):
+        j = load.index(min(load)); bins[j].append(i); load[j] += len(lines[i]) ** 2
+    bins = [b for b in bins if b]
+    with ThreadPoolExecutor(max_workers=len(bins)) as ex:
+        outs = list(ex.map(lambda b: vf.run_driver(exe, [lines[i] for i in b], shards=1), bins))
+    res = [None] * n
+    for b, o in zip(bins, outs):
+        for i, l in zip(b, o): res[i] = l
+    return res
+
+
 # ---------------------------------------------------------------- cases
 class Pair(object):
     def __init__(self, family, sspec, dspec, repo):
@@ -21,6 +42,7 @@ class Pair(object):
         self.dst = G.build_geo(dspec, repo)
         self.case = {'kind': 'block_mapping', 'family': family, 'src': sspec, 'dst': dspec}
         self._enc = None
+        self._cmp = None
 
     def enc(self):
         if self._enc is None:
@@ -30,6 +52,10 @@ class Pair(object):
 
     def comparable(self):
         """target blocks on which the model's tie resolution is certain to be the implementation's"""
+        if self._cmp is None: self._cmp = self._comparable()
+        return self._cmp
+
+    def _comparable(self):
         uc = G.unique_nearest_columns(self.src, self.dst)
         cl = G.comparable_layers(self.src, self.dst)
         dst = self.dst
@@ -46,8 +72,18 @@ class Pair(object):
         return ok, uc, cl
 
 
+def shipped_file(k, thorough):
+    """the shipped geometry of the k-th pair of a shipped-* family: every file of tests/mulgrid once in
+    the thorough tier (g4/g2 have ~29000 blocks), the two mid-sized ones (g5, g1: ~8000 blocks) once in
+    the quick tier, otherwise the small ones (the model's association lists make a case quadratic)."""
+    if thorough:
+        return G.SHIPPED[k] if k < len(G.SHIPPED) else G.SHIPPED[k % 3]
+    return {0: 'g5.dat', 2: 'g1.dat'}.get(k, 'g7.dat')
+
+
 def make_pairs(ctx, n):
     rng = ctx.rng
+    nship = {}
     pairs, skipped = [], 0
     combos = [(a, b) for a in range(3) for b in range(3)]
     i = 0
@@ -58,8 +94,12 @@ def make_pairs(ctx, n):
         ta, tb = combos[(i // len(G.FAMILIES) + i) % 9]
         if fam == 'identical': tb = ta
         i += 1
+        shipped = None
+        if fam.startswith('shipped'):
+            k = nship.get(fam, 0); nship[fam] = k + 1
+            shipped = shipped_file(k, ctx.thorough)
         try:
-            f, a, b = G.gen_pair(rng, fam, ctx.repo, ta, tb, thorough=ctx.thorough)
+            f, a, b = G.gen_pair(rng, fam, ctx.repo, ta, tb, thorough=ctx.thorough, shipped=shipped)
             pairs.append(Pair(f, a, b, ctx.repo))
         except Exception as e:
             # naming capacity of a convention exceeded etc.: not a case
@@ -92,7 +132,7 @@ def correspond_mapping(ctx, exe, pairs):
         lines.append('\t'.join(['bl'] + d))
         lines.append('\t'.join(['wf'] + s))
         lines.append('\t'.join(['wf'] + d))
-    out = vf.run_driver(exe, lines)
+    out = drive(exe, lines)
     nblocks = ncmp = 0
     wf_ok = wf_all = dc = dl = 0
     kinds = {}
@@ -184,7 +224,7 @@ def correspond_incon(ctx, exe, jobs):
             if mf is None:
                 m, cm = O.explicit_maps(p.src, p.dst); mf = ['m', G.show_dict(m), G.show_dict(cm)]
         lines.append('\t'.join(['it'] + mf + s + d + [enc_incon(inc)]))
-    out = vf.run_driver(exe, lines)
+    out = drive(exe, lines)
     kinds = {}
     for (p, case), mo, im in zip(jobs, out, impl):
         c = dict(case, src=p.sspec, dst=p.dspec, kind='incon')
@@ -263,7 +303,7 @@ def correspond_generators(ctx, exe, jobs):
                                                 ','.join('%s=%s' % (vf.hexs(b.name), G.qstr(b.volume)) for b in new.grid.blocklist),
                                                 encg]))
         used.append((p, case))
-    out = vf.run_driver(exe, lines) if lines else []
+    out = drive(exe, lines) if lines else []
     res = {}
     for (p, case), mo, im in zip(used, out, impl):
         c = dict(case, src=p.sspec, dst=p.dspec, kind='generators-pair')
@@ -332,12 +372,13 @@ def run(ctx):
     ctx.stage()
     ok = ctx.coq_build(timeout=600)
     exe = vf.build_driver(ctx)
-    n = 3000 if ctx.thorough else 100
+    n = 2000 if ctx.thorough else 150
     t0 = time.time()
     pairs, skipped = make_pairs(ctx, n)
     ctx.log('%d geometry pairs built in %.1fs (%d generation attempts skipped)' % (len(pairs), time.time() - t0, skipped))
     ctx.extra['input_distribution'] = {'pairs': len(pairs), 'generation_skipped': skipped,
                                        'target_blocks_total': sum(p.dst.num_blocks for p in pairs)}
+    nbig = [0]
     if exe:
         for lo in range(0, len(pairs), 200):
             chunk = pairs[lo:lo + 200]
@@ -345,7 +386,10 @@ def run(ctx):
             ctx.log('  mapping correspondence done')
             jobs = []
             for i, p in enumerate(chunk):
-                if p.src.num_blocks + p.dst.num_blocks > 30000 and (lo + i) % 3: continue
+                # the model's association lists make one transfer cost ~ target blocks x (source + target blocks)
+                if p.dst.num_blocks * (p.src.num_blocks + p.dst.num_blocks) > 3e7:
+                    nbig[0] += 1
+                    if nbig[0] > (8 if ctx.thorough else 2): continue
                 case = {'nvar': 1 + (lo + i) % 6, 'vseed': 1000 + lo + i}
                 jobs.append((p, case))
                 if O.atm_finding_class(p.src, p.dst): jobs.append((p, dict(case, explicit=True)))
